@@ -67,7 +67,7 @@ func c02FlipBit(v *big.Int, i int) *big.Int {
 func c02Run(t *testing.T, sub, keyA, keyB string, maxLen int, bitStride int, qb, tb time.Duration) {
 	r := vkit.Start(t, "C02", sub, qb, tb)
 	defer r.Finish()
-	r.Rule = "compositions of 1..4 builders and one of 7 (more than 40 challenge contributions) (disclosure, +nonrev, +range, issuance, +blind) over 1-2 keys x both session kinds; neighbours: every single-bit flip (stride s) of context and nonce, +-1, 0, swapped, flag flipped, every key permutation/substitution, every list permutation (keys alike or not), every proper sub-list (for the long list: neighbour transpositions, end swap, reversal; prefixes, suffixes, one member dropped), every duplication, every splice with a list of another session, members that cannot be reconstructed spliced in next to the member they copy, empty list; also each ProofD/ProofU singly; non-trivial = neighbour that differs from (T,L) by value; oracle: accepted iff unchanged; the caller's context and nonce objects are unchanged by verification"
+	r.Rule = "compositions of 1..4 builders and one of 7 (more than 40 challenge contributions) (disclosure, +nonrev, +range, issuance, +blind) over 1-2 keys x both session kinds; neighbours: every single-bit flip (stride s) of context and nonce, +-1, 0, swapped, all pairs of sessions with context and nonce in {0,1,2}, flag flipped, every key permutation/substitution, every list permutation (keys alike or not), every proper sub-list (for the long list: neighbour transpositions, end swap, reversal; prefixes, suffixes, one member dropped), every duplication, every splice with a list of another session, members that cannot be reconstructed spliced in next to the member they copy, empty list; also each ProofD/ProofU singly; non-trivial = neighbour that differs from (T,L) by value; oracle: accepted iff unchanged; the caller's context and nonce objects are unchanged by verification"
 	vfInstallEnv(t, "C02/"+sub, r.Seed)
 	secrets := []*big.Int{vfTag("c02-secret")}
 	r.Bounds["bit_stride"] = bitStride
@@ -76,7 +76,7 @@ func c02Run(t *testing.T, sub, keyA, keyB string, maxLen int, bitStride int, qb,
 	if keyB == keyA {
 		other = vfK("toyB")
 	}
-	for _, comp := range c02Compositions(keyA, keyB, maxLen) {
+	for ci, comp := range c02Compositions(keyA, keyB, maxLen) {
 		for _, issig := range []bool{false, true} {
 			_, mine := r.Next()
 			if !mine {
@@ -156,6 +156,25 @@ func c02Run(t *testing.T, sub, keyA, keyB string, maxLen int, bitStride int, qb,
 			try("nonce=0", true, L, pks, ctx, vfInt(0), issig)
 			try("context<->nonce", true, L, pks, nonce, ctx, issig)
 			try("context=nonce", true, L, pks, nonce, nonce, issig)
+			// sessions whose context and nonce are tiny (0, 1, 2: the values at which "absent", "zero" and "default"
+			// meet): a list made for one of the nine tuples verifies for that tuple only
+			if ci < 3 {
+				for a := int64(0); a <= 2; a++ {
+					for b := int64(0); b <= 2; b++ {
+						_, bls, _ := vsBuildList(comp.specs, secrets)
+						Ls, err := bls.BuildProofList(vfInt(a), vfInt(b), issig)
+						if err != nil {
+							r.Violate("C02|honest-list-not-built", fmt.Sprintf("%s issig=%v context=%d nonce=%d: %v", comp.name, issig, a, b, err), comp.name)
+							continue
+						}
+						for c := int64(0); c <= 2; c++ {
+							for d := int64(0); d <= 2; d++ {
+								try(fmt.Sprintf("small-session-values: made for (context,nonce)=(%d,%d), verified for (%d,%d)", a, b, c, d), a != c || b != d, Ls, pks, vfInt(c), vfInt(d), issig)
+							}
+						}
+					}
+				}
+			}
 			// keys
 			n := len(L)
 			for i := 0; i < n; i++ {
